@@ -7,12 +7,14 @@ import (
 	"strings"
 
 	"verif/gen/cfbgen"
+	"verif/gen/datagen"
 	"verif/gen/payload"
 	"verif/gen/shapes"
 	"verif/gen/zipgen"
 )
 
 const subProduct = "zip-based (jar, apk, xap, vsix): canonical base archive x ONE hazard at a time (thorough: also every unordered pair of hazards; a pair's failure that one component shows alone is attributed to that component) " +
+	"+ for jar the manifest line-length boundaries (JAR specification: no line longer than 72 bytes, read with or without the line end: a writer breaks after 70 or 72 bytes, continuation lines after 69 or 71 more): a header line of 69..73 and of 138..144 bytes, once as a main attribute and once as the Name of a per-entry section with a non-digest attribute (24 hazards) " +
 	"+ for xap/apk the gen/zipgen single-member feature family (every member feature value x every archive feature, one at a time); " +
 	"pe-coff: {PE32,PE32+} x bss section {no,yes} x unaligned last section {no,yes} x overlay {0,1,7,8,9} x header gap {0,1} (full product; thorough: + NumberOfRvaAndSizes {4,5,6} x overlay {0,1}); " +
 	"msi: gen/cfbgen families layout, names, storage, dircount (quick) + sizes(1 ordered, 2 multiset) (thorough: sizes(2,3), fat-full); " +
@@ -20,6 +22,7 @@ const subProduct = "zip-based (jar, apk, xap, vsix): canonical base archive x ON
 	"scripts: 7 extensions x line end {LF, CRLF, CR} x final line end {yes,no} x BOM {none, UTF-8, UTF-16LE}; " +
 	"deb: control member odd/even x data member odd/even x extra member {none, one odd-sized}; " +
 	"pgp: mode {clearsign, inline, inline+armor, detached, detached+armor} x 14 message texts (incl. lines of 4095..19000 bytes); " +
+	"pgp packet-length boundaries (RFC 4880 4.2): documents sized so that the BODY of the literal data packet of the inline message (6 + file name + document octets) is L-1, L, L+1, L+2 for every L in {191 (new-format one|two octets), 255 (old-format one|two octets), 8383 (new-format two|five octets), 65535 (old-format two|four octets), 2^k-1 for k=9..16 (partial body length chunks; 512 = smallest first chunk)}: 44 body lengths x file name of {9, 255} octets x {inline, inline+armor}, and the 9-octet-name documents also through {clearsign, detached, detached+armor}; " +
 	"fixtures: every functest package incl. the third-party-signed ones (appx, vsix by 'ralph'; Rocky rpm; hyperv.cat; InRelease; dummy.pkg; Mach-O dummyapp), Mach-O also stripped of its signature and the two slices of the fat fixture; " +
 	"all of the above x 2 keys x {same path, new path}; canonical shapes and fixtures additionally after 1 and 2 prior relic signings"
 
@@ -344,6 +347,62 @@ func allShapes(thorough bool) []shape {
 		Flags: url.Values{"clearsign": {"true"}}, Build: fixedBytes(shapes.Fixture("InRelease")), Before: func(d []byte) *payload.Payload {
 			return &payload.Payload{Type: "pgp-clearsign", Items: []payload.Item{{Name: "text(canonical)", Data: payload.CanonText(d)}}}
 		}})
+	// packet length boundaries: the literal data packet of an inline message
+	// holds 6 + len(file name) + len(document) octets; documents sized so that
+	// this BODY lies on either side of every place where RFC 4880 §4.2 changes
+	// the form of a packet length, under a short and under the longest file name
+	// the packet (and the file system) can carry. The same documents through
+	// clearsign and detached signing, where no packet holds the document.
+	longName := "input-" + strings.Repeat("n", 245) + ".txt" // 255 octets
+	for _, n := range datagen.BoundaryBodyLengths() {
+		for _, name := range []string{"input.txt", longName} {
+			doc, ok := datagen.BoundaryDocument(n, name)
+			if !ok {
+				continue
+			}
+			hz := fmt.Sprintf("literal-body-%d", n)
+			sfx := hz
+			inName := ""
+			if name != "input.txt" {
+				sfx += "/name-255"
+				inName = name
+			}
+			for _, armor := range []bool{false, true} {
+				fl := url.Values{"inline": {"true"}}
+				id := "pgp/inline/"
+				if armor {
+					fl.Set("armor", "true")
+					id = "pgp/inline-armor/"
+				}
+				// output = input path with a 255-octet name is not a case: the temporary
+				// file next to it would need a longer name than the file system allows
+				add(shape{ID: id + sfx, Type: "pgp", PType: "pgp-inline", Ext: ".txt", Hazard: "inline:" + hz, Source: "generated", PGP: true, Flags: fl,
+					InName: inName, NoSamePath: inName != "",
+					Build: fixedBytes(doc), Before: func(d []byte) *payload.Payload {
+						return &payload.Payload{Type: "pgp-inline", Items: []payload.Item{{Name: "literal-data", Meta: "format=b", Data: d}}}
+					}})
+				if inName != "" {
+					continue
+				}
+				fl2 := url.Values{}
+				id2 := "pgp/detached/"
+				if armor {
+					fl2.Set("armor", "true")
+					id2 = "pgp/detached-armor/"
+				}
+				add(shape{ID: id2 + sfx, Type: "pgp", PType: "pgp-detached", Ext: ".txt", Hazard: "detached:" + hz, Source: "generated", PGP: true, Flags: fl2, NoSamePath: true,
+					Build: fixedBytes(doc), Before: func(d []byte) *payload.Payload {
+						return &payload.Payload{Type: "pgp-detached", Items: []payload.Item{{Name: "signature-blob"}}}
+					}})
+			}
+			if inName == "" {
+				add(shape{ID: "pgp/clearsign/" + sfx, Type: "pgp", PType: "pgp-clearsign", Ext: ".txt", Hazard: "clearsign:" + hz, Source: "generated", PGP: true, Flags: url.Values{"clearsign": {"true"}},
+					Build: fixedBytes(doc), Before: func(d []byte) *payload.Payload {
+						return &payload.Payload{Type: "pgp-clearsign", Items: []payload.Item{{Name: "text(canonical)", Data: payload.CanonText(d)}}}
+					}})
+			}
+		}
+	}
 	_ = crypto.SHA256
 	return out
 }
